@@ -100,7 +100,11 @@ def gen_case(rng):
                     seq = str(rng.randrange(1 << 24))
                 if seq != "-" and mv in ("inc", "wrap"):
                     seq_state[tok] = base
-            if st != "pending" and rng.random() < 0.08:
+            if rng.random() < 0.08:
+                # an option with a registry-illegal length (skipped by the decoder) in front of Observe
+                lines.append("arrivex %d %d %s %d %s" % (tok, code, seq, t, tag()))
+                kinds.add("skipped-option-before-observe")
+            elif st != "pending" and rng.random() < 0.08:
                 # the token value without its leading zero bytes: a different token (length is part of a token), nobody's
                 lines.append("arrivez %d %d %s %d %s" % (tok, code, seq, t, tag()))
                 kinds.add("token-differs-in-length-only")
@@ -108,7 +112,7 @@ def gen_case(rng):
                 lines.append("arrive %d %d %s %d %s" % (tok, code, seq, t, tag()))
         elif r < 0.88:
             if tok in regs:
-                lines.append("cancel %d %d" % (tok, regs[tok][0]))
+                lines.append("cancel %d %d%s" % (tok, regs[tok][0], " done" if rng.random() < 0.3 else ""))
                 kinds.add("cancel-" + regs[tok][1])
                 if regs[tok][1] == "live":
                     regs[tok] = (regs[tok][0], "gone")
@@ -133,6 +137,10 @@ def dl(line):
     detail below the model (it decides which exit of NewObservation a later `regabort` takes: waiting for the first
     response, or the write itself failing because the ACK never came)"""
     f = line.split()
+    if f[0] == "arrivex":
+        return "arrive " + " ".join(f[1:])
+    if f[0] == "cancel" and len(f) == 4:
+        return "cancel %s %s" % (f[1], f[2])     # Cancel with a context that has already ended is a cancellation all the same
     if f[0] == "arrivez":
         # for the model: a message with a token no registration has
         return "arrive %d %s" % (int(f[1]) + 1000000, " ".join(f[2:]))
@@ -179,7 +187,7 @@ def etag_violations(case_lines, outs, deregs):
     for k, (l, o, d) in enumerate(zip(case_lines, outs, deregs)):
         for e in o.split(" ; "):
             f = e.split()
-            if len(f) == 6 and f[0] == "cb" and f[3] != "-":
+            if len(f) == 6 and f[0] == "cb" and f[3] != "-" and not l.startswith("arrivex"):
                 t = tag_etag(f[5])
                 if t is not None:
                     last[f[1]] = t
